@@ -94,6 +94,18 @@ CLAIMED = {
               "remove_unpainted_shapes is covered by the rendering judge, its tree surgery is modelled under C01."),
         technique="Lean 4 proof (case analysis of the decision ladder) + replayed-oracle correspondence + renderer-judged search",
         ref="DESIGN.md §4 C18"),
+    "C20": dict(
+        text=("Lean 4 theorem on the faithful Float model of the staged search: whenever affine_between reports a transform, "
+              "either the shapes already agree within the tolerance and it is the identity, or the reported matrix (after the "
+              "rounding search) passes the verification gate — applying it to the first affine-friendly outline reproduces the "
+              "second command for command within the tolerance; identical outlines yield the identity. Proved by induction over the "
+              "rounding range and case analysis of the three stages; no assumption about Float arithmetic is needed. The model is "
+              "tied to the code on (s, T(s)), unrelated and near-miss pairs (None / matrix within ulps) and every reported matrix is "
+              "re-verified on the implementation by an independent outline mapper; exact translations must be found."),
+        note=("Trusted: Lean kernel; core axioms only; the independent mapper in harness/props/c20.py (arc-free outlines); Lean "
+              "Float = libm. Not proved: that the gate's per-command comparison implies geometric image (interp-level), arcs."),
+        technique="Lean 4 proof (control-structure soundness on the Float model) + ulp-level correspondence + independent re-verification",
+        ref="DESIGN.md §4 C20"),
 }
 
 def main():
